@@ -53,6 +53,7 @@ def main(tier: str, seed: int, replay: str | None = None) -> int:
     rep = C.Report("C03", tier, seed)
     rep.proof_stage()
     rep.proof_stage("C03_core")     # unconditional soundness for the constraint-free fragment
+    rep.proof_stage("C03_elim")     # ... and with elimination constraints over base-type alternatives
     rep.proof_stage("C03_sub")      # ... and for schemas with subtype constraints x <= A / x < A, incl. clause (iii)
     rng = random.Random(seed)
     nh, npg = (12, 50) if tier == "quick" else (120, 100)
